@@ -563,6 +563,9 @@ def classify_layout_difference(case, ra, rb):
         a, b = ra[1], rb[1]
         if a[0] == b[0] == 'Series' and sorted(zip(a[1], a[2])) == sorted(zip(b[1], b[2])):
             return 'F20'  # same (label, value) pairs, order depends on layout
+    if name == 'reduce' and args[0] in ('sum', 'prod', 'cumsum', 'cumprod') and ra[0] == rb[0] == 'ok' \
+            and any(c['dt'] in ('int8', 'uint8', 'float32') for c in case['spec']['cols']):
+        return 'F72'  # narrow numeric columns: the per-block output keeps the narrow dtype and wraps / rounds
     if name == 'reduce' and rows == 0 and args[0] in ('all', 'any'):
         return 'F66'  # zero-row logical reductions read uninitialised memory for 2-D blocks
     if name == 'reduce' and any(c['dt'] in ('object', 'str', 'bytes') or c['dt'].startswith(('datetime', 'timedelta')) for c in case['spec']['cols']):
